@@ -1,12 +1,12 @@
 SPECIFICATION FairSpec
 CONSTANTS
   Subs = {"s1","s2"}
-  K = 2
-  Closers = {"c1"}
+  K = 1
+  Closers = {"c1","c2"}
   LegacyPlainSend = FALSE
   LegacyNoWgLock = FALSE
   MutClosingFirst = FALSE
-  MutSharedCtx = TRUE
+  MutSharedCtx = FALSE
   MutEarlyReturn = FALSE
 INVARIANTS TypeOK NoAddDuringWait ClosingAfterInner DropJustified InOrderOnce NothingLostSilently OutClosedAfterIn CloseComplete
 PROPERTIES CloseReturns CancelCloses
